@@ -21,10 +21,14 @@ def main():
         for f in sorted(os.listdir(rd)):
             if f.endswith(".json"):
                 registry.CHECKS[f[:-5].upper()] = json.load(open(os.path.join(rd, f)))
+    claimed = set()
+    cl = os.path.join(VERIF, "engine", "claimed.txt")
+    if os.path.exists(cl):
+        claimed = {l.split()[0] for l in open(cl) if l.strip() and not l.startswith("#")}
     for p in props:
         pid = p["id"]
         c = registry.CHECKS.get(pid)
-        if not c:
+        if not c or pid not in claimed:
             na.append({"property_id": pid, "reason": registry.NOT_CLAIMED.get(pid, registry.DEFAULT_REASON)})
             continue
         checks.append({
